@@ -127,7 +127,7 @@ def run(tier, seed):
     res = Result("C14", tier, seed)
     work = Work("C14")
     try:
-        ok, blog = coq_build()
+        ok, blog = coq_build(["props/C14.vo", "corr/C14corr.vo"])
         proofs_ok, pa = proof_obligations(work, res, "C14.v", ok, blog)
         cases = gen_cases(seed, tier)
         write_jsonl(work.path("cases.jsonl"), cases)
